@@ -337,7 +337,29 @@ def run(chk):
         return call
     rcases = [("%s.send" % label, enc_call(obj, v), e) for label, ty, obj, v, e in every]
     rcases += [("%s.read" % label, dec_call(obj, e), len(e)) for label, ty, obj, v, e in every]
+    # ... and through the entry points packet definitions use (X.send_with_context / X.read_with_context)
+    from minecraft.networking.connection import ConnectionContext
+    wctx = ConnectionContext(protocol_version=757)
+
+    def enc_ctx(obj, v):
+        def call():
+            b = Buf()
+            obj.send_with_context(v, b, wctx)
+            return bytes(b.out)
+        return call
+
+    def dec_ctx(obj, e):
+        def call():
+            b = Buf(e)
+            obj.read_with_context(b, wctx)
+            return b.pos
+        return call
+    rcases += [("%s.send_with_context" % label, enc_ctx(obj, v), e) for label, ty, obj, v, e in every]
+    rcases += [("%s.read_with_context" % label, dec_ctx(obj, e), len(e)) for label, ty, obj, v, e in every]
     reent.threaded(chk, 'reentrancy', rcases, seconds=2.0 if chk.tier == 'thorough' else 0.6)
+    # the cheapest codecs through the shared entry points only: the largest share of the time is spent in the dispatch itself
+    cheap = [c for c in rcases if '_with_context' in c[0] and c[0].split('.')[0] in ('Boolean', 'Byte', 'UnsignedByte', 'Short', 'Integer', 'Long', 'VarInt', 'Float', 'Double')]
+    reent.threaded(chk, 'reentrancy', cheap, nthreads=6, seconds=3.0 if chk.tier == 'thorough' else 1.2)
     chk.assumptions += ['Python struct / str.encode / bytes.decode / uuid.UUID are library code mirrored by executable Gallina re-implementations and validated here',
                         'floats: the harness maps Python floats to IEEE bit patterns through float.hex()/frexp, independently of struct',
                         'Angle.send / FixedPoint use binary64 arithmetic; the model is exact-rational; inputs within 1e-9 of a rounding tie are excluded']
